@@ -193,7 +193,7 @@ def naive_corrupt_part(chk, scns):
                 dist["panics"] += 1
                 chk.failures.append(core.Failure("[single-erasure back-end] %s panics on corrupt flash contents" % op.split()[0], "session", "naive", l, raw[:1500], key="c17")); break
         nt.append(l)
-        if len(chk.failures) > 10: break
+        if chk.too_many(): break
     chk.note_cases("naive-corrupt", lines, nt, sample_n=1, dist=dist)
 
 
@@ -254,7 +254,7 @@ def run(chk):
                 if "0 -> 1" in msg: continue       # arbitrary contents: programs over garbage legitimately need not be clean
                 chk.failures.append(core.Failure("on corrupt flash: " + msg, "session", variant, l, raw[:1500], key="c17"))
             nt.append(l)
-            if len(chk.failures) > 10: break
+            if chk.too_many(): break
         chk.note_cases("session-corrupt[%s]" % variant, lines, nt, sample_n=1, dist=dist)
     naive_corrupt_part(chk, scns)
     naive_index_part(chk, random.Random(chk.seed + 17))
